@@ -554,8 +554,23 @@ class Ctx:
             return (-INF, INF)
         atoms = sorted(p.atoms(), key=repr)
         ranges = {a: self.atom_range(a) for a in atoms}
-        # atoms with point ranges: substitute
-        return self._rng_rec(p, atoms, ranges, 0)
+        lo, hi = self._rng_rec(p, atoms, ranges, 0)
+        # tighten with order facts on the same polynomial up to an affine map: p = s*F + k, F (<|<=|==) 0
+        if len(p.t) > 1 or (len(p.t) == 1 and () not in p.t):
+            for f in self.facts:
+                if f.k[0] != 'cmp' or f.k[1] == '!=':
+                    continue
+                sk = _affine_ratio(p, f.k[2])
+                if sk is None:
+                    continue
+                s_, k_ = sk
+                if f.k[1] == '==':
+                    lo, hi = max(lo, k_), min(hi, k_)
+                elif s_ > 0:
+                    hi = min(hi, k_)
+                else:
+                    lo = max(lo, k_)
+        return (lo, hi)
 
     def _rng_rec(self, p, atoms, ranges, depth):
         c = p.const_value()
@@ -720,6 +735,17 @@ class Ctx:
             elif integer and hi == bound:
                 hi = hi - 1
         self.ranges[a] = (lo, hi)
+        # a refined floor-division atom bounds its numerator
+        if a[0] == 'idiv' and a[2].const_value() is not None and a[2].const_value() > 0 and lo <= hi:
+            c = a[2].const_value()
+            if lo not in (INF, -INF) and lo > 0:
+                f = cmp_term('Ge', a[1], lo * c)
+                if f.k[0] == 'cmp' and f not in self.facts:
+                    self.facts.append(f)
+            if hi not in (INF, -INF):
+                f = cmp_term('Le', a[1], hi * c + c - 1)
+                if f.k[0] == 'cmp' and f not in self.facts:
+                    self.facts.append(f)
 
 
 def _floor(x):
